@@ -251,10 +251,10 @@ Evaluate(C, F, k, A, lm, N) ==
       cgnShare == IF hasSrc("EL_COGEN") /\ bc[el].an.prJ["EL_COGEN"] > 0
                   THEN RDiv(bc[el].an.expJ["EL_COGEN"], R(bc[el].an.prJ["EL_COGEN"])) ELSE Zero
       renElOnst == IF el \in crs THEN RMul(bc[el].we.del_onst[1], RSub(One, RMul(RSub(One, k), pvShare))) ELSE Zero
-      renElCgn == IF el \in crs THEN bc[el].we.del_cgn[1] ELSE Zero
       renCgnExp == RMul(SumSet(LAMBDA c : bc[c].we.del_cgn[1], crs \cap Nearby), cgnShare)
       onst == RAdd(renOnstCr, renElOnst)
-      nrb == RSub(RAdd(RAdd(renNrbCr, renElOnst), renElCgn), RMul(RSub(One, k), renCgnExp))
+      \* (electricity the grid delivers to feed a cogenerator - we.del_cgn of ELECTRICIDAD - is not a nearby resource)
+      nrb == RSub(RAdd(renNrbCr, renElOnst), RMul(RSub(One, k), renCgnExp))
       bal ==
         [needs |-> [s \in NeedSrvs(C) |-> R(NeedsAn(C, s))],
          used_epus |-> R(ISumSet(LAMBDA c : bc[c].an.epus, crs)),
